@@ -8,8 +8,9 @@
      mv = true   additionally the moves table (seq included), the effective volumes and the moves sequence: holds along
                  histories without dry runs, or without MOVES_HISTORY (a dry run consumes moves.seq values on the source);
      acc = true  additionally the accounts table (first usage, insertion date, updated_at) and the account metadata
-                 history: holds along histories without SET/DELETE_METADATA on accounts (their import is what
-                 C11_refuted_first_usage / C11_refuted_updated_at are about). *)
+                 history: holds along histories without DELETE_METADATA on accounts (its import is dated at the import:
+                 C11_refuted_updated_at); SET_METADATA on accounts is covered since importLog replays the upsert of the write
+                 path dated at the log (imp_acc_set_is_write). *)
 From Coq Require Import List ZArith String Bool Ascii Lia Sorted.
 From LV Require Import Base.Util Base.Json Ledger.Types Ledger.Core Ledger.Bulk Ledger.Invariants Ledger.ReplayProofs Ledger.HashChain Ledger.Import Ledger.ImportProofs.
 Import ListNotations.
@@ -336,13 +337,14 @@ Qed.
 
 (* SET_METADATA on an account: the write path (UpsertAccounts with NULL dates at [now]) vs. its import
    (UpdateAccountsMetadata dated [now] = the log date) *)
-Lemma acc_set_sim f mv s c now a md :
-  Sim f mv false s c ->
-  Sim f mv false (with_accounts s (upsert_account (f_acc_hist f) now (s_accounts s, s_ahist s) a md (Some now) None None))
-                 (with_accounts c (imp_acc_set (f_acc_hist f) now (s_accounts c, s_ahist c) a md)).
+Lemma acc_set_sim f mv acc s c now a md :
+  Sim f mv acc s c ->
+  Sim f mv acc (with_accounts s (upsert_account (f_acc_hist f) now (s_accounts s, s_ahist s) a md (Some now) None None))
+               (with_accounts c (imp_acc_set (f_acc_hist f) now (s_accounts c, s_ahist c) a md)).
 Proof.
   intros [Hv Ht Hh Hl Hm Ha Hav Hnd]. constructor; unfold with_accounts; cbn [s_vols s_txs s_thist s_logs s_moves s_accounts s_ahist s_next_seq]; try assumption.
-  - intros D; discriminate D.
+  - (* the import of the log IS the write at the log date: on identical accounts tables the results are identical *)
+    intros Hacc. destruct (Ha Hacc) as [Ea Eh]. rewrite imp_acc_set_is_write, Ea, Eh. split; reflexivity.
   - rewrite (imp_acc_set_av _ _ _ _ _ _ (nodup_copy _ _ Hav Hnd)), (upsert_account_av _ _ _ _ _ _ _ _ _ Hnd), Hav. reflexivity.
   - rewrite <- av_addrs, (upsert_account_av _ _ _ _ _ _ _ _ _ Hnd). apply av_upsert_nodup. rewrite av_addrs. exact Hnd.
 Qed.
@@ -387,8 +389,8 @@ Lemma find_tx_has_id txs id t : find_tx txs id = Some t -> t_id t = id.
 Proof. unfold find_tx. intros F. apply find_some in F. destruct F as [_ F]. apply Z.eqb_eq. exact F. Qed.
 
 (* ---------------------------------------------------------------- one operation body vs. importLog's replay of its payload *)
-Definition not_acc_meta (i : input) : Prop :=
-  match i with ISetMeta (TAcc _) _ | IDelMeta (TAcc _) _ => False | _ => True end.
+Definition not_acc_meta (i : input) : Prop :=              (* not a DELETE_METADATA on an account *)
+  match i with IDelMeta (TAcc _) _ => False | _ => True end.
 
 Lemma run_input_sim f mv acc now nowi s c i s1 p :
   InvT s -> Sim f mv acc s c -> (acc = true -> not_acc_meta i) ->
@@ -422,7 +424,7 @@ Proof.
     exists c1. split; [exact Ec | exact S2].
   - (* account metadata *)
     intros H; inversion H; subst; clear H. cbn [imp_payload]. eexists. split; [reflexivity|].
-    destruct acc; [exfalso; exact (Hacc eq_refl)|]. apply acc_set_sim. exact S.
+    apply acc_set_sim. exact S.
   - (* transaction metadata *)
     destruct (find_tx (s_txs s) id) as [t|] eqn:F; [|discriminate].
     destruct (find_tx_sim f mv acc s c id t S F) as (x & Fx & Ex & Exm).
@@ -634,9 +636,9 @@ Section Rows.
     destruct (roundtrip_state f mv acc now h Hmv Hacc) as (c & Ec & S).
     destruct (export_rows_source f h) as [Hfst Hrows]. fold a in Hfst, Hrows.
     pose proof (inv_logs_sorted _ (proj2 (run_inv f h))) as Hs.
-    exists {| i_s := c; i_tab := i_tab a; i_l := Initializing |}.
+    exists {| i_s := c; i_tab := i_tab a; i_l := Initializing; i_c := Initializing |}.
     split; [|split; [exact S | split; reflexivity]].
-    unfold imp_import, i_init. cbn [i_l i_s i_tab]. unfold last_log_id. cbn [s_logs init_state fold_left].
+    unfold imp_import, i_init. cbn [i_l i_s i_tab i_c]. unfold last_log_id. cbn [s_logs init_state fold_left].
     assert (A1 : StronglySorted Z.lt (map (fun r : log * bytes => l_id (fst r)) (imp_export_rows a))).
     { rewrite <- Hfst in Hs. rewrite map_map in Hs. exact Hs. }
     assert (A2 : forall x, @None Z = Some x -> Forall (fun r : log * bytes => x < l_id (fst r)) (imp_export_rows a)) by (intros x D; discriminate D).
